@@ -38,10 +38,181 @@ def run(report, index, tier):
     rules(report, index)
 
 
+def shared_class_mutables(mods):
+    """(class, attribute, write site): a mutable object created in a class
+    body, not rebound by the constructor that applies to the class, and
+    mutated through `self` by a method of the class, of a base or of a
+    subclass"""
+    classes = {}
+    for m in mods:
+        for cname, cnode in m.classes.items():
+            classes[cname] = (m, cnode)
+
+    def bases(c):
+        out = []
+        for b in classes[c][1].bases:
+            n = b.id if isinstance(b, ast.Name) else (
+                b.attr if isinstance(b, ast.Attribute) else None)
+            if n in classes:
+                out.append(n)
+        return out
+
+    def ancestors(c, seen=None):
+        seen = seen if seen is not None else []
+        for b in bases(c):
+            if b not in seen:
+                seen.append(b)
+                ancestors(b, seen)
+        return seen
+
+    def init_stores(c, depth=0):
+        """attributes the constructor that applies to c stores on self"""
+        m, cnode = classes[c]
+        init = m.class_methods(c).get('__init__')
+        if init is None:
+            out = set()
+            for b in bases(c)[:1]:
+                out |= init_stores(b, depth + 1)
+            return out
+        out = set()
+        chained = False
+        for n in ast.walk(init):
+            if isinstance(n, ast.Attribute) and isinstance(
+                    n.ctx, ast.Store) and isinstance(
+                    n.value, ast.Name) and n.value.id == 'self':
+                out.add(n.attr)
+            if isinstance(n, ast.Call) and isinstance(
+                    n.func, ast.Attribute) and n.func.attr == '__init__':
+                chained = True
+        if chained and depth < 8:
+            for b in bases(c):
+                out |= init_stores(b, depth + 1)
+        return out
+    sites = {}
+    for m in mods:
+        for s in write_sites(m):
+            if s.cls and s.rootkind == 'self' and s.base is not None:
+                sites.setdefault(s.cls, []).append(s)
+    for cname, (m, cnode) in sorted(classes.items()):
+        mutable = {}
+        for st in cnode.body:
+            if isinstance(st, ast.Assign) and isinstance(
+                    st.value, (ast.List, ast.Dict, ast.Set, ast.ListComp,
+                               ast.DictComp, ast.SetComp)):
+                for t in st.targets:
+                    if isinstance(t, ast.Name):
+                        mutable[t.id] = st
+            elif isinstance(st, ast.Assign) and isinstance(
+                    st.value, ast.Call) and ast.unparse(
+                    st.value.func) in ('list', 'dict', 'set',
+                                       'defaultdict', 'deque'):
+                for t in st.targets:
+                    if isinstance(t, ast.Name):
+                        mutable[t.id] = st
+        if not mutable:
+            continue
+        related = [cname] + ancestors(cname) + [
+            c for c in classes if cname in ancestors(c)]
+        for c in related:
+            # the instances whose class attribute is this object: cname
+            # itself and subclasses not rebinding it
+            holders = [cname] + [x for x in classes if cname in ancestors(x)]
+            for s in sites.get(c, []):
+                bt = ast.unparse(s.base)
+                for attr in mutable:
+                    if not (bt == 'self.%s' % attr or bt.startswith(
+                            'self.%s[' % attr) or bt.startswith(
+                            'self.%s.' % attr)):
+                        continue
+                    for holder in holders:
+                        if c != holder and c not in ancestors(holder) and \
+                                holder not in ancestors(c):
+                            continue
+                        if attr in init_stores(holder):
+                            continue
+                        # a nearer class body rebinding the name
+                        hidden = False
+                        for x in [holder] + ancestors(holder):
+                            if x == cname:
+                                break
+                            if any(isinstance(st, ast.Assign) and any(
+                                    isinstance(t, ast.Name) and t.id == attr
+                                    for t in st.targets)
+                                    for st in classes[x][1].body):
+                                hidden = True
+                                break
+                        if hidden:
+                            continue
+                        yield cname, attr, s
+                        break
+
+
+CANARY = """
+CACHE = {}
+
+
+def factory(callee):
+    memo = {'last': None}
+
+    def inner(text):
+        memo['last'] = text
+        CACHE[text] = 1
+        return callee(text)
+    return inner
+
+
+class Base(object):
+    table = {}
+
+    def put(self, k):
+        self.table[k] = 1
+
+
+class Derived(Base):
+    def __init__(self):
+        self.other = []
+"""
+
+
+class _Snippet(object):
+    """a module-like object over a source string (for the canary)"""
+
+    def __init__(self, name, source):
+        self.name = name
+        self.tree = ast.parse(source)
+        self.classes = {st.name: st for st in self.tree.body
+                        if isinstance(st, ast.ClassDef)}
+
+    def class_methods(self, cname):
+        return {st.name: st for st in self.classes[cname].body
+                if isinstance(st, ast.FunctionDef)}
+
+
+def canary():
+    """the rules that expect zero matches on the real tree must match this
+    snippet: a write to a module-level dict, a write through a captured
+    variable of a factory that returns the writer, and a mutable class
+    attribute mutated through self without rebinding"""
+    m = _Snippet('canary', CANARY)
+    sites = write_sites(m)
+    kinds = {(s.func, s.text): (s.rootkind, s.closure) for s in sites}
+    if kinds.get(('inner', "CACHE[text]"), ('', ''))[0] != 'global':
+        raise AnalysisError('canary: the module-level write is not seen')
+    if kinds.get(('inner', "memo['last']"), ('', None))[1] != 'factory':
+        raise AnalysisError('canary: the closure-state write is not seen')
+    found = {(c, a) for c, a, _s in shared_class_mutables([m])}
+    if ('Base', 'table') not in found:
+        raise AnalysisError('canary: the shared mutable class attribute is '
+                            'not seen (found %r)' % (sorted(found),))
+    return len(sites)
+
+
 def rules(report, index):
     """also a premise of the round-trip properties C01 / C02: printing and
     re-parsing are two parses in one process, the second must not depend
     on the first"""
+    report.count('R15 canary: write sites of the positive example',
+                 canary())
     mods = [index.need(d) for d in PARSE_PATH]
     pm = index.need('calmjs.parse.parsers.es5')
     lm = index.need('calmjs.parse.lexers.es5')
@@ -170,6 +341,14 @@ def rules(report, index):
                         'writes to `%s`, which is module-level or class-'
                         'level state shared by all parses and threads'
                         % s.root, where=s.where)
+            elif s.closure:
+                r2.fail(key, construct,
+                        'writes to `%s`, an object created by the enclosing '
+                        'function %s and captured by %s, which outlives '
+                        'that activation: the object persists between '
+                        'calls of %s and is shared by all of them' % (
+                            s.root, s.closure, s.func, s.func),
+                        where=s.where)
             elif s.rootkind == 'param' and (s.func, s.root) in defaults:
                 r2.fail(key, construct,
                         'mutates parameter `%s` whose default value %s is '
@@ -179,50 +358,17 @@ def rules(report, index):
             else:
                 r2.ok(construct, s.rootkind)
     # mutable class attributes that instances mutate are shared state
-    for m in mods:
-        for cname, cnode in m.classes.items():
-            mutable = {}
-            for st in cnode.body:
-                if isinstance(st, ast.Assign) and isinstance(
-                        st.value, (ast.List, ast.Dict, ast.Set, ast.ListComp,
-                                   ast.DictComp, ast.SetComp)):
-                    for t in st.targets:
-                        if isinstance(t, ast.Name):
-                            mutable[t.id] = st
-                elif isinstance(st, ast.Assign) and isinstance(
-                        st.value, ast.Call) and ast.unparse(
-                        st.value.func) in ('list', 'dict', 'set',
-                                           'defaultdict', 'deque'):
-                    for t in st.targets:
-                        if isinstance(t, ast.Name):
-                            mutable[t.id] = st
-            if not mutable:
-                continue
-            methods = m.class_methods(cname)
-            init = methods.get('__init__')
-            rebound = set()
-            if init is not None:
-                for n in ast.walk(init):
-                    if isinstance(n, ast.Attribute) and isinstance(
-                            n.ctx, ast.Store) and isinstance(
-                            n.value, ast.Name) and n.value.id == 'self':
-                        rebound.add(n.attr)
-            for s in write_sites(m):
-                if s.cls != cname or s.rootkind != 'self' or s.base is None:
-                    continue
-                bt = ast.unparse(s.base)
-                for attr in mutable:
-                    if (bt == 'self.%s' % attr or bt.startswith(
-                            'self.%s[' % attr) or bt.startswith(
-                            'self.%s.' % attr)) and attr not in rebound:
-                        r2.fail('%s.%s shared mutable class attribute' % (
-                            cname, attr), '%s in %s.%s' % (
-                                s.text, cname, s.func),
-                            '`%s` is a mutable object created once in the '
-                            'class body of %s and never rebound per '
-                            'instance, but %s mutates it through self: all '
-                            'instances (all parses, all threads) share it'
-                            % (attr, cname, s.func), where=s.where)
+    seen_cm = set()
+    for cname, attr, s in shared_class_mutables(mods):
+        if (cname, attr) in seen_cm:
+            continue
+        seen_cm.add((cname, attr))
+        r2.fail('%s.%s shared mutable class attribute' % (cname, attr),
+                '%s in %s.%s' % (s.text, s.cls, s.func),
+                '`%s` is a mutable object created once in the class body '
+                'of %s and never rebound per instance, but %s mutates it '
+                'through self: all instances (all parses, all threads) '
+                'share it' % (attr, cname, s.func), where=s.where)
     # instance attributes initialised from shared (module- or class-level)
     # mutable objects, directly or through a shallow copy
     MUT = (ast.List, ast.Dict, ast.Set, ast.ListComp, ast.DictComp,
